@@ -440,6 +440,9 @@ pub struct World {
     pub check_routing: bool,
     /// applications of connections accepted from a sink address are created in manual mode
     pub manual_apps_for_sinks: bool,
+    /// crypto configuration used for every client connection instead of a fresh one per connect
+    /// (C17: a rustls resumption store that outlives one connection); None = previous behaviour
+    pub client_crypto: Option<Arc<dyn quinn_proto::crypto::ClientConfig>>,
 }
 
 #[derive(Debug, Default, Clone)]
@@ -525,6 +528,7 @@ impl World {
             sinks: BTreeMap::new(),
             check_routing: false,
             manual_apps_for_sinks: true,
+            client_crypto: None,
             spec,
         };
         w.add_endpoint(false, vec![addr_v6(1, 5000)]);
@@ -593,7 +597,10 @@ impl World {
         let s = &self.spec;
         let mut cc = match s.crypto {
             CryptoKind::Sim => ClientConfig::new(self.sim_client_cfg.clone()),
-            CryptoKind::Rustls => crate::tls::client_config(),
+            CryptoKind::Rustls => match &self.client_crypto {
+                Some(c) => ClientConfig::new(c.clone()),
+                None => crate::tls::client_config(),
+            },
         };
         cc.transport_config(Arc::new(build_tc(&s.client_tc, Some(cc_log))));
         let ctr = self.dcid_ctr.clone();
